@@ -1168,7 +1168,11 @@ int EGLPNUM_TYPENAME_ILLwrite_mps (
 			EGLPNUM_TYPENAME_ILLprint_report (lp, " E  ");
 			break;
 		case 'R':
-			EGLPNUM_TYPENAME_ILLprint_report (lp, " G  ");
+			/* a range of width zero gets no RANGES entry below: it is an equation */
+			if (lp->rangeval && EGLPNUM_TYPENAME_EGlpNumIsNeqqZero (lp->rangeval[i]))
+				EGLPNUM_TYPENAME_ILLprint_report (lp, " G  ");
+			else
+				EGLPNUM_TYPENAME_ILLprint_report (lp, " E  ");
 			break;
 		}
 		EGLPNUM_TYPENAME_ILLprint_report (lp, "%s\n", rownames[i]);
